@@ -1,8 +1,11 @@
 package c01
 
 import (
+	"errors"
 	"fmt"
 	"sync"
+
+	"github.com/attestantio/dirk/util/verifhook"
 
 	"verif/harness/vkit"
 )
@@ -37,6 +40,7 @@ type Outcome struct {
 	ZeroWatermark   bool
 	ByKey           bool
 	Padded          bool
+	WriteFaults     bool
 	ViaGRPC         bool
 	ReleasedHigh    bool
 	Results         [][]string
@@ -92,8 +96,25 @@ func Run(c *Case, which string) (*Outcome, *vkit.Violation, error) {
 		return nil
 	}
 
+	writesFail := false
+	verifhook.Set(func(ev verifhook.Event) error {
+		if writesFail && (ev.Name == "store.store.enter" || ev.Name == "store.batch.enter") {
+			return errors.New("verif: store cannot be written")
+		}
+
+		return nil
+	})
+	defer verifhook.Set(nil)
 	for si, s := range c.Steps {
 		switch s.Kind {
+		case "writes-fail", "writes-ok":
+			writesFail = s.Kind == "writes-fail"
+			if writesFail {
+				o.WriteFaults = true
+			}
+			o.Results = append(o.Results, []string{s.Kind})
+
+			continue
 		case "restart":
 			o.HasRestart = true
 			if o.Released > 0 {
